@@ -55,3 +55,93 @@ Proof.
   exists [47;120;63;34;62;60;115;99;114;105;112;116;62]. split; [vm_compute; reflexivity|].
   vm_compute. discriminate.
 Qed.
+
+(* ---- responses: a response rendered as a document has no Raw segment, and the markup bytes of a
+   Raw-free body are those of its trusted text alone *)
+Lemma skeleton_app a b : skeleton (a ++ b) = skeleton a ++ skeleton b.
+Proof. unfold skeleton. apply filter_app. Qed.
+
+Lemma has_false_filter p s : has p s = false -> filter p s = [].
+Proof.
+  induction s as [|c r IH]; cbn [has filter]; intros H; [reflexivity|].
+  apply orb_false_iff in H. destruct H as [H1 H2]. rewrite H1. auto.
+Qed.
+
+Lemma escaped_skeleton s : skeleton (html_escape s) = [].
+Proof.
+  unfold skeleton. apply has_false_filter.
+  pose proof (escape_safe s) as H. unfold attr_safe in H. apply negb_true_iff in H. exact H.
+Qed.
+
+Theorem raw_free_skeleton l : raw_free l = true ->
+  skeleton (render l) = skeleton (render (strip l)).
+Proof.
+  unfold raw_free. rewrite negb_true_iff.
+  induction l as [|g r IH]; cbn [existsb]; intros H; [reflexivity|].
+  apply orb_false_iff in H. destruct H as [Hg Hr].
+  unfold render in *. cbn [flat_map strip filter].
+  destruct g as [t|s|s]; cbn [is_raw is_trusted render_seg] in *; try discriminate.
+  - cbn [flat_map render_seg]. rewrite !skeleton_app. f_equal. apply IH. exact Hr.
+  - rewrite skeleton_app, escaped_skeleton. cbn [app]. apply IH. exact Hr.
+Qed.
+
+Lemma page_raw_free tpl tail : raw_free (page tpl tail) = true.
+Proof.
+  unfold raw_free, page. rewrite negb_true_iff, existsb_app.
+  cbn [existsb is_raw]. rewrite !orb_false_r.
+  induction tpl as [|p r IH]; cbn [flat_map existsb app is_raw]; [reflexivity|exact IH].
+Qed.
+
+Lemma digit_range n : 48 <= digit n /\ digit n <= 57.
+Proof.
+  unfold digit. assert (H : n mod 10 < 10) by (apply N.mod_upper_bound; discriminate).
+  set (m := n mod 10) in *. clearbody m. lia.
+Qed.
+
+Lemma failure_line_not_document code status msg :
+  sniffs_html (render (failure_line code status msg)) = false.
+Proof.
+  unfold failure_line, render, code_bytes. cbn [flat_map render_seg app].
+  pose proof (digit_range (code / 100)) as [A B].
+  unfold sniffs_html. cbn [skip_ws].
+  assert (W : is_ws (digit (code / 100)) = false).
+  { unfold is_ws. rewrite !orb_false_iff. repeat split; apply N.eqb_neq; lia. }
+  rewrite W. apply N.eqb_neq. lia.
+Qed.
+
+Theorem document_fields_inert admin_port accept_html code status msg tpl tail :
+  let r := failure_response admin_port accept_html code status msg (page tpl tail) in
+  rendered_as_document r = true ->
+  raw_free (r_body r) = true /\
+  skeleton (render (r_body r)) = skeleton (render (strip (r_body r))).
+Proof.
+  intros r H.
+  assert (RF : raw_free (r_body r) = true).
+  { subst r. unfold failure_response in *.
+    destruct admin_port; [cbn in H; discriminate|].
+    destruct (accept_html && (code =? 401)).
+    - cbn [r_body]. apply page_raw_free.
+    - unfold rendered_as_document in H. cbn [r_ctype r_body] in H.
+      rewrite failure_line_not_document in H. discriminate. }
+  split; [exact RF|]. apply raw_free_skeleton. exact RF.
+Qed.
+
+Theorem page_fields_inert ct tpl tail :
+  skeleton (render (r_body (mkResp ct (page tpl tail)))) =
+  skeleton (render (strip (r_body (mkResp ct (page tpl tail))))).
+Proof. cbn [r_body]. apply raw_free_skeleton. apply page_raw_free. Qed.
+
+(* the failure line declared text/html for browsers: the detail becomes markup *)
+Theorem typed_failure_refuted : exists status msg,
+  let r := failure_response_typed false true 400 status msg (page [] []) in
+  rendered_as_document r = true /\
+  skeleton (render (r_body r)) <> skeleton (render (strip (r_body r))).
+Proof.
+  exists [66;97;100], [60;105;109;103;62]. split; [reflexivity|]. vm_compute. discriminate.
+Qed.
+
+(* a Raw field inside a page (a template.HTML conversion of request text) breaks the statement as well *)
+Theorem raw_field_refuted : exists s,
+  skeleton (render [Trusted [60;98;62]; Raw s; Trusted [60;47;98;62]]) <>
+  skeleton (render (strip [Trusted [60;98;62]; Raw s; Trusted [60;47;98;62]])).
+Proof. exists [60;105;62]. vm_compute. discriminate. Qed.
